@@ -55,8 +55,10 @@ def Registry.qualOf (r : Registry) (path : Str) : Str :=
   | some p => p.qualifier
   | none => []
 
-/-- State of one `AddImport` call while conflicts are resolved: the new package is not yet in
-    the map (`pend`), the others are. -/
+/-- State of one `AddImport` call while conflicts are resolved: the new package (`pend`) and
+    the others.  Since the fix of F-25 the new package is registered *before* its conflict is
+    resolved, so `searchImport` ranges over it as well (`RS.all`); it is kept apart here because it
+    is the last entry of the registry once `AddImport` returns. -/
 structure RS where
   pend : Pkg
   imps : List Pkg
@@ -65,6 +67,10 @@ deriving Repr
 def setAliasIn (path al : Str) : List Pkg → List Pkg
   | [] => []
   | p :: ps => if p.path = path then { p with alias := al } :: ps else p :: setAliasIn path al ps
+
+/-- what `searchImport` ranges over during conflict resolution: every registered import, the
+    one being added included -/
+def RS.all (s : RS) : List Pkg := s.imps ++ [s.pend]
 
 def RS.setAlias (s : RS) (path al : Str) : RS :=
   if s.pend.path = path then { s with pend := { s.pend with alias := al } }
@@ -76,7 +82,7 @@ def RS.setAlias (s : RS) (path al : Str) : RS :=
     package ⇒ resolve that conflict one level deeper (`deeper`) -/
 def resolveStep (o : Ord) (deeper : RS → Str → Str → Option RS) (lvl : Nat) (skip : Option Str)
     (s : RS) (p : Str) : Option RS :=
-  match searchIn (o.pk s.imps) (uniqueName p lvl) with
+  match searchIn (o.pk s.all) (uniqueName p lvl) with
   | some c =>
     if c.path = p ∨ skip = some c.path then some (s.setAlias p (uniqueName p lvl)) else deeper s p c.path
   | none => some (s.setAlias p (uniqueName p lvl))
